@@ -1,10 +1,12 @@
 package input
 
 import (
+	"bytes"
 	"encoding/base64"
 	"fmt"
 	"strings"
 	"testing"
+	"time"
 
 	"github.com/gdamore/tcell/v2"
 	"github.com/gdamore/tcell/v2/terminfo"
@@ -28,14 +30,15 @@ type c02tok struct {
 }
 
 type c02plan struct {
-	Cfg     hx.Config
-	Bytes   []byte
-	Cuts    []int
-	Toks    []c02tok
-	Kind    string
-	Suspend bool // one more run: Suspend/Resume right after the last read
-	Burst   int  // ms of simulated time that pass while the unpolled burst sits in the queues
-	Touch   bool // the poller also calls Size()/HasPendingEvent() between polls
+	Cfg        hx.Config
+	Bytes      []byte
+	Cuts       []int
+	Toks       []c02tok
+	Kind       string
+	Suspend    bool // one more run: Suspend/Resume right after the last read
+	Burst      int  // ms of simulated time that pass while the unpolled burst sits in the queues
+	SlowResize bool // one more run: a resize on a slow line between the first read and the rest
+	Touch      bool // the poller also calls Size()/HasPendingEvent() between polls
 }
 
 func exact(s string) func(string) bool { return func(g string) bool { return g == s } }
@@ -56,6 +59,31 @@ func drawRune(t *rapid.T) rune {
 }
 
 // drawTokens builds a token string for the terminal from its description.
+// tokLegacy: the legacy character set the token string being drawn is typed in (nil: UTF-8).
+var tokLegacy *charset
+
+var trickyCache = map[string][]rune{}
+
+// trickyMembers are the characters whose encoding contains a byte that also
+// starts or continues a control sequence.
+func trickyMembers(cs *charset) []rune {
+	if m, ok := trickyCache[cs.Name]; ok {
+		return m
+	}
+	var out []rune
+	for _, r := range cs.Members {
+		b := encodeText(cs, []rune{r})
+		if len(b) == 1 && b[0] < 0x80 {
+			continue
+		}
+		if bytes.IndexByte(b, 0x9b) >= 0 || (len(b) >= 2 && bytes.IndexAny(b[1:], "[M<]\\O;~") >= 0) {
+			out = append(out, r)
+		}
+	}
+	trickyCache[cs.Name] = out
+	return out
+}
+
 func drawTokens(t *rapid.T, ti *terminfo.Terminfo, w, h int) []c02tok {
 	seqs, _ := keySeqs(ti)
 	cp := capsOf(ti)
@@ -80,6 +108,17 @@ func drawTokens(t *rapid.T, ti *terminfo.Terminfo, w, h int) []c02tok {
 			}
 			toks = append(toks, c02tok{Kind: "key", B: []byte(ks.Seq), accept: ks.accepts, Want: ks.String()})
 		case 3, 4, 5:
+			if tokLegacy != nil {
+				// a character of the legacy locale; preferably one whose bytes
+				// look like (parts of) control sequences: 0x9b, '[', 'M', '<', ']'
+				pool := trickyMembers(tokLegacy)
+				if len(pool) == 0 || rapid.IntRange(0, 2).Draw(t, "plainmember") == 0 {
+					pool = tokLegacy.Members
+				}
+				r := pool[rapid.IntRange(0, len(pool)-1).Draw(t, "member")]
+				toks = append(toks, c02tok{Kind: "rune", B: encodeText(tokLegacy, []rune{r}), accept: exact(runeDesc(r, 0)), Want: fmt.Sprintf("rune %q (% x in %s)", r, encodeText(tokLegacy, []rune{r}), tokLegacy.Name)})
+				continue
+			}
 			r := drawRune(t)
 			toks = append(toks, c02tok{Kind: "rune", B: []byte(string(r)), accept: exact(runeDesc(r, 0)), Want: fmt.Sprintf("rune %q", r)})
 		case 6, 7:
@@ -172,6 +211,19 @@ func drawTokens(t *rapid.T, ti *terminfo.Terminfo, w, h int) []c02tok {
 	return out
 }
 
+func noMousePos(evs []string) []string {
+	out := make([]string, len(evs))
+	for i, e := range evs {
+		out[i] = e
+		if strings.HasPrefix(e, "mouse:") {
+			if parts := strings.SplitN(e, ":", 3); len(parts) == 3 {
+				out[i] = "mouse:" + parts[2]
+			}
+		}
+	}
+	return out
+}
+
 func stripAlt(desc string) string {
 	var a, b int
 	if n, _ := fmt.Sscanf(desc, "key:Rune:%d:%d", &a, &b); n == 2 {
@@ -189,7 +241,20 @@ func drawC02(t *rapid.T) *c02plan {
 	ti := hx.Term(p.Cfg.Term, false)
 	if rapid.IntRange(0, 9).Draw(t, "kind") < 7 {
 		p.Kind = "tokens"
+		tokLegacy = nil
+		if rapid.IntRange(0, 4).Draw(t, "legacytokens") == 0 {
+			// typed text in a legacy locale, between the reports
+			var legacy []*charset
+			for _, cs := range loadCharsets() {
+				if !strings.HasPrefix(strings.ToLower(cs.Name), "utf") && cs.Name != "US-ASCII" {
+					legacy = append(legacy, cs)
+				}
+			}
+			tokLegacy = legacy[rapid.IntRange(0, len(legacy)-1).Draw(t, "legacycs")]
+			p.Cfg.Locale = "en_US." + tokLegacy.Name
+		}
 		p.Toks = drawTokens(t, ti, p.Cfg.W, p.Cfg.H)
+		tokLegacy = nil
 		for _, tk := range p.Toks {
 			p.Bytes = append(p.Bytes, tk.B...)
 		}
@@ -234,6 +299,7 @@ func drawC02(t *rapid.T) *c02plan {
 	p.Suspend = rapid.IntRange(0, 3).Draw(t, "suspend") == 0
 	// an application that uses the screen between polls
 	p.Touch = rapid.IntRange(0, 3).Draw(t, "touch") == 0
+	p.SlowResize = rapid.IntRange(0, 2).Draw(t, "slowresize") == 0
 	ncut := rapid.IntRange(1, 11).Draw(t, "ncuts")
 	for i := 0; i < ncut && len(p.Bytes) > 1; i++ {
 		p.Cuts = append(p.Cuts, rapid.IntRange(1, len(p.Bytes)-1).Draw(t, "cut"))
@@ -269,7 +335,7 @@ func decodeStream(cfg hx.Config, ch *simrt.Chooser, b []byte, cuts []int, rec bo
 	var chunks [][]byte
 	for i := 1; i <= len(b); i++ {
 		if i == len(b) || isCut[i] {
-			if burst >= 0 {
+			if burst >= 0 || burst == -3 {
 				chunks = append(chunks, b[start:i])
 			} else {
 				w.feedHold(b[start:i])
@@ -282,6 +348,29 @@ func decodeStream(cfg hx.Config, ch *simrt.Chooser, b []byte, cuts []int, rec bo
 	}
 	if burst >= 0 {
 		w.feedBurst(chunks, burst)
+	}
+	if burst == -3 && len(b) > 0 {
+		// the chunks were only collected: after the first one the window
+		// changes size and the line is slow taking the repaint (130 ms, more
+		// than the escape timeout), and the remaining reads happen at once,
+		// while the main loop is still busy writing.  Every byte was read
+		// within the timeout of the one before it.
+		w.feedHold(chunks[0])
+		n0 := w.Tty.SlowWrites
+		w.Tty.WriteDelay = 130 * time.Millisecond
+		w.Tty.Resize(w.Tty.W+1, w.Tty.H)
+		w.S.Spawn("winch", func() { w.Tty.FireResize() })
+		w.Tty.Faults.Inc("resize")
+		if st := w.S.RunUntil(func() bool { return w.Tty.SlowWrites > n0 }, w.S.Now()+w.holdFor()); st == simrt.Budget {
+			w.stall = true
+		}
+		if len(chunks) > 1 {
+			w.Tty.FeedChunks(chunks[1:])
+		}
+		if st := w.S.RunUntil(nil, w.S.Now()+w.holdFor()); st == simrt.Budget {
+			w.stall = true
+		}
+		w.Tty.WriteDelay = 0
 	}
 	var srErr error
 	if burst == -2 {
@@ -323,6 +412,7 @@ func runC02(t *rapid.T) {
 	chB := hx.DrawChooser(t, 60)
 	chC := hx.DrawChooser(t, 60)
 	chD := hx.DrawChooser(t, 30)
+	chE := hx.DrawChooser(t, 40)
 	hx.Arm("C02")
 	defer hx.Disarm()
 	a, err := decodeStream(p.Cfg, chA, p.Bytes, nil, false, -1)
@@ -352,6 +442,23 @@ func runC02(t *rapid.T) {
 	fail := func(tag, format string, args ...interface{}) {
 		if f == nil {
 			f = &hx.Failure{Tag: tag, Msg: fmt.Sprintf("%s input %q: ", p.Cfg.Term, p.Bytes) + fmt.Sprintf(format, args...)}
+		}
+	}
+	if p.SlowResize && !p.Cfg.Polling {
+		e, err := decodeStream(p.Cfg, chE, p.Bytes, p.Cuts, true, -3)
+		if err != nil {
+			t.Fatalf("HARNESS: %v", err)
+		}
+		for _, pn := range e.panics {
+			fail("C02/panic", "decoding panics: %s", pn)
+		}
+		// (mouse positions are clipped against the window, whose size differs
+		// between the two runs: compared without them)
+		if strings.Join(noMousePos(a.evs), " ") != strings.Join(noMousePos(e.evs), " ") {
+			fail("C02/partition", "delivered in one read: %v; cut at %v, with the window resized after the first read and the remaining reads made while a slow line was still taking the repaint: %v", a.evs, p.Cuts, e.evs)
+		}
+		if len(e.sentinel) != 1 || e.sentinel[0] != runeDesc('Q', 0) {
+			fail("C02/residue", "after a resize on a slow line and the escape timeout a fresh 'Q' decoded to %v (cuts %v, events before: %v)", e.sentinel, p.Cuts, e.evs)
 		}
 	}
 	for _, r := range []*c02result{a, b, c} {
